@@ -8,10 +8,11 @@ _pre = r'''
 #include <supla_esp_cfg.h>
 #include "mqtt.h"
 #include "supla_esp_mqtt.h"
-ssize_t mqtt_pal_sendall(mqtt_pal_socket_handle h, const void *b, size_t l, int f) { return 0; }
-ssize_t mqtt_pal_recvall(mqtt_pal_socket_handle h, void *b, size_t l, int f) { return 0; }
-unsigned int uptime_sec(void) { return 0; }
 #include "mqtt.c"
+#include <string.h>
+/* supla_esp_mqtt.c is compiled into the probe for its macros (MQTT_KEEP_ALIVE_SEC, MQTT_CLIENTID_MAX_SIZE, RECONNECT_RETRY_TIME_MS);
+   none of its functions is called: unresolved references are dropped by --gc-sections */
+#include "supla_esp_mqtt.c"
 #define ERRIDX(e) ((long long)(e) - (long long)MQTT_ERROR_UNKNOWN)
 '''
 
@@ -58,6 +59,37 @@ G.GROUPS['MqttConsts'] = dict(
         ('REQ_FLAGS', 'mqtt_fixed_header_rules.required_flags', '16'),
         ('MASK_FLAGS', 'mqtt_fixed_header_rules.mask_required_flags', '16'),
     ],
-    body='  fprintf(stdout, "S DEVICE_NAME"); { const char *q = MQTT_DEVICE_NAME; while (*q) fprintf(stdout, " %u", (unsigned char)*q++); } fprintf(stdout, "\\n");\n',
-    extra_names=['DEVICE_NAME'],
+    body=r'''
+  { /* behavioural pins: which remaining lengths 0..5 the real mqtt_unpack_response accepts for each packet type a broker sends
+       (row: type, accepted lengths...), how many length bytes are accepted, CONNACK flag/code limits */
+    static const int types[] = {2, 3, 4, 5, 6, 7, 9, 11, 13};
+    for (unsigned i = 0; i < sizeof types / sizeof types[0]; i++) {
+      fprintf(stdout, "L ACCEPTED_RL %d", types[i]);
+      for (int rl = 0; rl <= 5; rl++) {
+        uint8_t b[16]; memset(b, 0, sizeof b);
+        b[0] = (uint8_t)((types[i] << 4) | (types[i] == 6 ? 2 : 0)); b[1] = (uint8_t)rl;
+        struct mqtt_response r; memset(&r, 0, sizeof r);
+        if (mqtt_unpack_response(&r, b, 2 + (size_t)rl) > 0) fprintf(stdout, " %d", rl);
+      }
+      fprintf(stdout, "\n");
+    }
+    int maxb = 0;
+    for (int nb = 1; nb <= 6; nb++) {
+      uint8_t b[16]; memset(b, 0x80, sizeof b); b[0] = 0x30; b[nb] = 0x02;
+      struct mqtt_response r; memset(&r, 0, sizeof r);
+      if (mqtt_unpack_fixed_header(&r, b, (size_t)nb + 1) != MQTT_ERROR_INVALID_REMAINING_LENGTH) maxb = nb; else break;
+    }
+    fprintf(stdout, "I RL_BYTES_MAX %d\n", maxb);
+    int maxcode = -1, maxflag = -1;
+    for (int c = 0; c < 256; c++) { uint8_t b[4] = {0x20, 2, 0, (uint8_t)c}; struct mqtt_response r; if (mqtt_unpack_response(&r, b, 4) > 0) maxcode = c; }
+    for (int c = 0; c < 256; c++) { uint8_t b[4] = {0x20, 2, (uint8_t)c, 0}; struct mqtt_response r; if (mqtt_unpack_response(&r, b, 4) > 0) maxflag = c; }
+    fprintf(stdout, "I CONNACK_CODE_MAX %d\nI CONNACK_FLAG_MAX %d\n", maxcode, maxflag);
+    { /* QoS 3 and a topic that does not fit are rejected: error codes */
+      uint8_t q3[8] = {0x36, 5, 0, 1, 'a', 0, 1}; struct mqtt_response r; fprintf(stdout, "I QOS3_RESULT %lld\n", (long long)mqtt_unpack_response(&r, q3, 7) < 0 ? ERRIDX(mqtt_unpack_response(&r, q3, 7)) : 0);
+      uint8_t tl[8] = {0x30, 3, 0, 2, 'a'}; fprintf(stdout, "I TOPIC_OVERRUN_RESULT %lld\n", (long long)mqtt_unpack_response(&r, tl, 5) < 0 ? ERRIDX(mqtt_unpack_response(&r, tl, 5)) : 0);
+    }
+  }
+  fprintf(stdout, "I KEEP_ALIVE_SEC %lld\nI CLIENTID_MAX %lld\nI RECONNECT_RETRY_MS %lld\n", (long long)MQTT_KEEP_ALIVE_SEC, (long long)MQTT_CLIENTID_MAX_SIZE, (long long)RECONNECT_RETRY_TIME_MS);
+''' + '  fprintf(stdout, "S DEVICE_NAME"); { const char *q = MQTT_DEVICE_NAME; while (*q) fprintf(stdout, " %u", (unsigned char)*q++); } fprintf(stdout, "\\n");\n',
+    extra_names=['ACCEPTED_RL', 'RL_BYTES_MAX', 'CONNACK_CODE_MAX', 'CONNACK_FLAG_MAX', 'QOS3_RESULT', 'TOPIC_OVERRUN_RESULT', 'KEEP_ALIVE_SEC', 'CLIENTID_MAX', 'RECONNECT_RETRY_MS', 'DEVICE_NAME'],
 )
